@@ -152,8 +152,14 @@ def explore(
                 again = run_case(case)
                 acc.replayed_twice += 1
                 if again.ok != out.ok:
-                    # the verdict itself is not reproducible: harness error
-                    acc.nondeterministic.append({"index": i, "case": case})
+                    # the same case passed, then failed, in one process: either state the
+                    # code under test carries between evaluations or a harness flaw; the
+                    # runner decides by replaying this worker's history in a fresh process
+                    acc.n_violations += 1
+                    acc.viol_sigs[again.sig or "?"] = acc.viol_sigs.get(again.sig or "?", 0) + 1
+                    if sum(1 for v in acc.violations if v["sig"] == again.sig) < 3:
+                        acc.violations.append({"index": i, "case": case, "detail": again.detail,
+                                               "sig": again.sig, "twice": True})
                 elif again.obs != out.obs:
                     # same verdict, different incidental observation (e.g. a
                     # file name that embeds a process id): counted, not an error
@@ -168,7 +174,43 @@ def explore(
     )
     if sample is not None and not rep.samples and cases:
         rep.samples.append(sample(cases[0]))
+    W = H.fold_width(ctx.workers, len(cases))
+    for v in rep.violations:
+        # what the runner needs to re-run the evaluations that preceded this one in its
+        # worker process (never serialised)
+        v["_hist"] = (cases, W, _init, run_case, twice_every)
     return rep
+
+
+def history_of(v: dict) -> Optional[list]:
+    """Indices of the evaluations worker (index mod W) made up to and including v."""
+    h = v.get("_hist")
+    if h is None:
+        return None
+    _, W, _, _, _ = h
+    i = v["index"]
+    return list(range(i % W, i + 1, W))
+
+
+def run_history(v: dict, idxs: list, *, timeout: float = 14400.0):
+    """Re-run, in ONE fresh forked process, the given evaluations of v's worker in their
+    original order (including the every-n-th double runs); -> (ok, sig, detail) of the
+    last evaluation, or None when the child failed."""
+    cases, W, init, run_case, twice_every = v["_hist"]
+
+    def go():
+        init()
+        last = None
+        for j in idxs:
+            last = run_case(cases[j])
+            if last.ok and twice_every and j % twice_every == 0 and (j != idxs[-1] or v.get("twice")):
+                last = run_case(cases[j])
+        return (last.ok, last.sig, jsonable(last.detail))
+
+    r = H.run_child(go, timeout=timeout, capture=True)
+    if r.status != "ok":
+        return None
+    return r.value
 
 
 # --------------------------------------------------------------------------
